@@ -80,15 +80,34 @@ def oracle_c01(real, snap, graph, i, c, ex, stderr):
     return None
 
 
+class Tracker:
+    """remembers the state ref before each command, so that oracles can tell whether the
+    command published a new stack state"""
+
+    def __init__(self):
+        self.prev_stack = None
+        self.published = False
+
+    def __call__(self, real, snap, graph, i, c, ex, stderr):
+        self.published = snap["stack"] is not None and snap["stack"] != self.prev_stack
+        self.prev_stack = snap["stack"]
+        TRACK["published"] = self.published
+        return None
+
+
+TRACK = {"published": True}
+
+
 def stg_opened(c, ex):
     return c["c"] not in ("gedit", "gcommit", "gamend", "gmerge", "greset") and ex in (0, 2, 3)
 
 
 def moved_by_stg(c, ex):
     """commands after whose success the branch was last moved by stg"""
-    return ex in (0, 3) and c["c"] in ("new", "refresh", "push", "pop", "goto", "float", "sink", "delete", "hide",
-                                       "unhide", "commit", "clean", "spill", "repair") and \
-        not (c["c"] in ("push", "pop") and c.get("n") == 0)
+    return ex in (0, 3) and TRACK["published"] and \
+        c["c"] in ("new", "refresh", "push", "pop", "goto", "float", "sink", "delete", "hide", "unhide", "commit",
+                   "clean", "spill", "repair") and \
+        not (ex == 3 and c["c"] in ("hide", "unhide"))
 
 
 def refname_oracle(real, names, cache):
@@ -208,6 +227,54 @@ class LogOracle:
         return fail
 
 
+class PrevOracle:
+    """C12 / C13 clauses that compare with the snapshot before the command"""
+
+    def __init__(self):
+        self.prev = None
+
+    def __call__(self, real, snap, graph, i, c, ex, stderr):
+        st = stack_json(real, snap)
+        cur = {"branch": snap["branch"], "wt": snap["wt"], "unmerged": snap["unmerged"], "st": st,
+               "status": real.r.git(["status", "--porcelain"]).stdout}
+        prev, self.prev = self.prev, cur
+        if prev is None or prev["st"] is None or st is None:
+            return None
+        pst = prev["st"]
+        if c["c"] == "repair":
+            if cur["branch"] != prev["branch"]:
+                return "stg repair moved the branch head"
+            if cur["status"] != prev["status"] and ex in (0, 2):
+                # the status relative to HEAD may only change if HEAD changed - it must not
+                return "stg repair changed the index / work tree status"
+            if ex == 0:
+                before = set(pst["applied"] + pst["unapplied"] + pst["hidden"])
+                after = set(st["applied"] + st["unapplied"] + st["hidden"])
+                if not before <= after:
+                    return "stg repair dropped patches: %r" % sorted(before - after)
+                if set(pst["hidden"]) - set(st["hidden"]) - set(st["applied"]):
+                    return "stg repair un-hid a patch that is not applied"
+        if c["c"] == "uncommit":
+            if cur["branch"] != prev["branch"] or cur["wt"] != prev["wt"] or cur["status"] != prev["status"]:
+                return "stg uncommit changed the branch head, index or work tree"
+            if ex == 0:
+                new = [n for n in st["applied"] if n not in pst["applied"]]
+                if st["applied"][len(new):] != pst["applied"]:
+                    return "stg uncommit did not put the new patches below the applied ones"
+        if c["c"] == "commit" and ex == 0:
+            gone = [n for n in pst["applied"] + pst["unapplied"] if n not in st["patches"]]
+            hist = set(real.r.git(["rev-list", "--first-parent", snap["branch"]]).stdout.split())
+            k = len(gone)
+            if gone == pst["applied"][:k]:
+                # bottom-most patches: no commit changes, head unchanged
+                if cur["branch"] != prev["branch"]:
+                    return "committing the bottom-most patches changed the branch head"
+                for n in gone:
+                    if pst["patches"][n]["oid"] not in hist:
+                        return "commit of committed patch %r is no longer in the branch history" % n
+        return None
+
+
 def oracle_c09(real, snap, graph, i, c, ex, stderr):
     """after a conflict halt the conflicting patch is applied on top as an empty commit and
     the index has unmerged entries"""
@@ -270,7 +337,7 @@ def _worker(args):
 
 
 def build_oracles(names):
-    out = []
+    out = [Tracker()]
     for n in names:
         if n == "c20":
             out.append(oracle_c20)
@@ -284,6 +351,8 @@ def build_oracles(names):
             out.append(LogOracle())
         elif n == "c09":
             out += [oracle_c09, oracle_conflict_guard({})]
+        elif n == "prev":
+            out.append(PrevOracle())
     return out
 
 
